@@ -3,3 +3,4 @@ NEXT GenNext
 CONSTANTS
   N = 2
   Labels = {"none", "dep", "dep-arch", "unselected", "other-arch", "after-subst", "fallback"}
+  Fill = 1
